@@ -365,3 +365,190 @@ func runTransfer(run *lib.Run, seed uint64, typ string) {
 	run.Count(fmt.Sprintf("transfer-versions:%d/transmitted:%d", nv, len(pick)))
 	run.Add("transfer", term, transferCase{Kind: "transfer", Typ: typ, Seed: seed}, fmt.Sprintf("transfer/%s/%d", typ, seed))
 }
+
+// ---- TransferData: the whole source store (every repo, every instance) onto a fresh store, all versions or
+// only the listed ones.  The stores are large by the time this runs, so the driver compares the raw data keys
+// itself and hands the model the projected facts.
+func dumpAllData(store dvid.Store) (map[string][]byte, error) {
+	rq, ok := store.(rawRanger)
+	if !ok {
+		return nil, fmt.Errorf("store %s has no RawRangeQuery", store)
+	}
+	m := map[string][]byte{}
+	ch := make(chan *storage.KeyValue, 1000)
+	done := make(chan bool)
+	go func() {
+		for kv := range ch {
+			if kv == nil {
+				break
+			}
+			if storage.Key(kv.K).IsDataKey() {
+				m[string(kv.K)] = append([]byte{}, kv.V...)
+			}
+		}
+		done <- true
+	}()
+	err := rq.RawRangeQuery(storage.MinDataKey(), storage.ConstructBlobKey([]byte{}), false, ch, nil)
+	<-done
+	return m, err
+}
+
+func runTransferData(run *lib.Run, seed uint64, filtered bool) {
+	rng := lib.NewRand(seed*40503 + 7)
+	transferN++
+	fail := func(what string, err error) {
+		run.Notes = append(run.Notes, fmt.Sprintf("transfer-data seed %d: %s: %v", seed, what, err))
+		run.Count("transfer-failed:" + what)
+		run.Add("transfer-failed", "CTransferFail 2", transferCase{Kind: "transfer-data", Typ: fmt.Sprint(filtered), Seed: seed}, fmt.Sprintf("tdfail/%d/%v", seed, filtered))
+	}
+	root, err := dv.NewRepo(fmt.Sprintf("td%d", transferN))
+	if err != nil {
+		fail("new-repo", err)
+		return
+	}
+	early, late := fmt.Sprintf("early%d", transferN), fmt.Sprintf("late%d", transferN)
+	if err := dv.NewInstance(root, "keyvalue", early, nil); err != nil {
+		fail("new-instance", err)
+		return
+	}
+	put := func(u, inst string, n int) {
+		for i := 0; i < n; i++ {
+			k := fmt.Sprintf("k%d", rng.Intn(6))
+			if rng.Chance(0.25) {
+				dv.Delete("/api/node/" + u + "/" + inst + "/key/" + k)
+			} else {
+				dv.Post("/api/node/"+u+"/"+inst+"/key/"+k, rng.Bytes(1+rng.Intn(8)))
+			}
+		}
+	}
+	uuids := []string{root}
+	put(root, early, 4)
+	dv.Commit(root)
+	c1, r := dv.NewVersion(root)
+	if c1 == "" {
+		fail("new-version", fmt.Errorf("%d %s", r.Status, r.Body))
+		return
+	}
+	uuids = append(uuids, c1)
+	// an instance that enters the repo at a version other than the root
+	if err := dv.NewInstance(c1, "keyvalue", late, nil); err != nil {
+		fail("new-instance-at-child", err)
+		return
+	}
+	put(c1, early, 3)
+	put(c1, late, 4)
+	dv.Commit(c1)
+	c2, _ := dv.NewVersion(c1)
+	c3, _ := dv.Branch(c1, fmt.Sprintf("tdb%d", transferN))
+	for _, c := range []string{c2, c3} {
+		if c != "" {
+			uuids = append(uuids, c)
+			put(c, early, 3)
+			put(c, late, 3)
+		}
+	}
+	d, err := datastore.GetDataByUUIDName(dvid.UUID(root), dvid.InstanceName(early))
+	if err != nil {
+		fail("get-data", err)
+		return
+	}
+	srcStore, _ := d.KVStore()
+	dir := filepath.Join(os.TempDir(), fmt.Sprintf("c19-td-%d-%d", os.Getpid(), transferN))
+	os.RemoveAll(dir)
+	defer os.RemoveAll(dir)
+	var c dvid.Config
+	c.SetAll(map[string]interface{}{"path": dir})
+	dst, _, err := storage.NewStore(dvid.StoreConfig{Config: c, Engine: "badger"})
+	if err != nil {
+		fail("open-destination", err)
+		return
+	}
+	defer dst.Close()
+	cfg := struct {
+		Versions []string
+		Metadata bool
+	}{}
+	okV := map[dvid.VersionID]bool{}
+	if filtered {
+		for _, u := range uuids {
+			if rng.Chance(0.6) {
+				cfg.Versions = append(cfg.Versions, u)
+				v, _ := datastore.VersionFromUUID(dvid.UUID(u))
+				okV[v] = true
+			}
+		}
+		if len(cfg.Versions) == 0 {
+			cfg.Versions = []string{uuids[1]}
+			v, _ := datastore.VersionFromUUID(dvid.UUID(uuids[1]))
+			okV[v] = true
+		}
+	}
+	cfgFile := filepath.Join(os.TempDir(), fmt.Sprintf("c19-td-%d-%d.json", os.Getpid(), transferN))
+	b, _ := json.Marshal(cfg)
+	os.WriteFile(cfgFile, b, 0644)
+	defer os.Remove(cfgFile)
+	before, err := dumpAllData(srcStore)
+	if err != nil {
+		fail("dump-source", err)
+		return
+	}
+	var terr error
+	p, msg := lib.Recover(func() { terr = datastore.TransferData(dvid.UUID(root), srcStore, dst, cfgFile) })
+	if p {
+		terr = fmt.Errorf("panic: %s", msg)
+	}
+	if terr != nil {
+		fail("transfer-data", terr)
+		return
+	}
+	after, err1 := dumpAllData(srcStore)
+	got, err2 := dumpAllData(dst)
+	if err1 != nil || err2 != nil {
+		fail("dump-after", fmt.Errorf("%v / %v", err1, err2))
+		return
+	}
+	expected, missing, extra, differ, srcChanged := 0, 0, 0, 0, 0
+	for k, v := range before {
+		if filtered {
+			ver, err := storage.VersionFromDataKey(storage.Key(k))
+			if err != nil || !okV[ver] {
+				continue
+			}
+		}
+		expected++
+		g, ok := got[k]
+		switch {
+		case !ok:
+			missing++
+		case !bytes.Equal(g, v):
+			differ++
+		}
+	}
+	for k := range got {
+		v, ok := before[k]
+		_ = v
+		if !ok {
+			extra++
+			continue
+		}
+		if filtered {
+			ver, err := storage.VersionFromDataKey(storage.Key(k))
+			if err != nil || !okV[ver] {
+				extra++
+			}
+		}
+	}
+	if len(after) != len(before) {
+		srcChanged = 1
+	} else {
+		for k, v := range before {
+			if a, ok := after[k]; !ok || !bytes.Equal(a, v) {
+				srcChanged = 1
+				break
+			}
+		}
+	}
+	run.Count(fmt.Sprintf("transfer-data:filtered=%v", filtered))
+	term := fmt.Sprintf("CTransferData %s %d %d %d %d %s", lib.CoqBool(filtered), expected, missing, extra, differ, lib.CoqBool(srcChanged == 1))
+	run.Add("transfer-data", term, transferCase{Kind: "transfer-data", Typ: fmt.Sprint(filtered), Seed: seed}, fmt.Sprintf("transfer-data/%d/%v", seed, filtered))
+}
